@@ -87,6 +87,7 @@ type TokRel struct {
 	Tokens map[string]tokSet   // node type name ("*ast.Identifier") -> token types its Token may carry
 	Keys   map[*ssa.Function]map[string]map[int64]bool // parse function -> registry -> keys
 	ParamPosition []string // node types also built in parameter position with an arbitrary token (excluded)
+	Entry map[*ssa.Function]parserState // possible cur/peek token types at each parser function's entry
 }
 
 var tokRelCache = map[*Ctx]*TokRel{}
@@ -398,6 +399,7 @@ func (c *Ctx) TokRel() *TokRel {
 			break
 		}
 	}
+	tr.Entry = entry
 	// nodes built outside the parser with a fixed token
 	internFn := c.Fn("token", "Intern")
 	byType := c.Fn("token", "ByType")
